@@ -105,7 +105,8 @@ def context(plan, res):
 # ---------------------------------------------------------------- synthesised rule programs (OVR_SILFPROG)
 def _prog_decode(a):
     i = 0
-    np, nsub, nuser, ij, rtl = a[0:5]; i = 5
+    np, nsub, nuser, ij, rtl, flags, nj = a[0:7]; i = 7
+    just = a[i:i + 4 * nj]; i += 4 * nj
     passes = []
     for _ in range(np):
         maxloop, nr = a[i], a[i + 1]; i += 2
@@ -119,12 +120,12 @@ def _prog_decode(a):
             act = a[i:i + al]; i += al
             rules.append([match, cons, act])
         passes.append([maxloop, rules])
-    return [nsub, nuser, ij, rtl, passes]
+    return [nsub, nuser, ij, rtl, passes, flags, just]
 
 
 def _prog_encode(pr):
-    nsub, nuser, ij, rtl, passes = pr
-    a = [len(passes), min(nsub, len(passes)), nuser, ij, rtl]
+    nsub, nuser, ij, rtl, passes, flags, just = pr
+    a = [len(passes), min(nsub, len(passes)), nuser, ij, rtl, flags, len(just) // 4] + list(just)
     for maxloop, rules in passes:
         a += [maxloop, len(rules)]
         for match, cons, act in rules:
